@@ -462,7 +462,7 @@ DEFAULT_ATTRS = {
 
 def render_xml(doc: Doc, style: str = "xtce", comments=None, whitespace: bool = False,
                tree: Optional[El] = None, bool_case: str = "lower", omit_defaults: bool = False,
-               text_style: str = "plain") -> bytes:
+               text_style: str = "plain", extra_attrs: bool = False) -> bytes:
     """Serialise.  comments: None | 'all' | set of position indices (see count_positions).
     text_style: how element text and attribute values are spelled - 'plain', 'charref' (first character as a numeric character reference,
     decimal and hexadecimal alternating), 'entity' (element text through general entities declared in an internal DTD subset; attribute
@@ -512,6 +512,13 @@ def render_xml(doc: Doc, style: str = "xtce", comments=None, whitespace: bool = 
 
     def emit(e: El, depth: int, is_root=False):
         av = dict(e.attrs)
+        if extra_attrs and e.tag in ("IntegerParameterType", "FloatParameterType", "EnumeratedParameterType"):
+            # attributes of the schema that describe the engineering value, not the encoding: they change nothing about how bits are read
+            if e.tag == "IntegerParameterType":
+                av["signed"] = "true" if len(av.get("name", "")) % 2 else "false"
+            av["sizeInBits"] = "64" if len(av.get("name", "")) % 3 else "32"
+            if e.tag != "EnumeratedParameterType":
+                av["initialValue"] = "1"
         if omit_defaults:
             for k in list(av):
                 if DEFAULT_ATTRS.get((e.tag, k)) == str(av[k]):
@@ -728,12 +735,21 @@ TEXT_STYLES = ("plain", "charref", "entity", "cdata")
 
 def doc_xml(doc: Doc, style: str = "xtce", **kw) -> bytes:
     """The document as the checks hand it to the loader: unless the caller fixes it, the spelling of characters (plain, character references,
-    internal entities, CDATA) rotates with the document's content, so every family of documents is read in all four."""
+    internal entities, CDATA) rotates with the document's content, so every family of documents is read in all four; so do leaving out
+    default-valued attributes and adding schema attributes that do not bear on decoding."""
     if "text_style" not in kw:
         import zlib
         plain = render_xml(doc, style, **kw)
-        ts = TEXT_STYLES[zlib.crc32(plain) % 4]
-        return plain if ts == "plain" else render_xml(doc, style, text_style=ts, **kw)
+        c = zlib.crc32(plain)
+        ts = TEXT_STYLES[c % 4]
+        # likewise: attributes that equal their documented default left out (every fourth document) and schema attributes the decoding does
+        # not depend on added (every other document)
+        more = {}
+        if "omit_defaults" not in kw and (c >> 2) % 4 == 0:
+            more["omit_defaults"] = True
+        if "extra_attrs" not in kw and (c >> 4) % 2 == 0:
+            more["extra_attrs"] = True
+        return plain if ts == "plain" and not more else render_xml(doc, style, text_style=ts, **more, **kw)
     return render_xml(doc, style, **kw)
 
 
